@@ -153,7 +153,9 @@ def _snapshot(w):
 
     def asnap(a):
         return (tuple(id(r) for r in a.routes), tuple(r.pattern for r in a.routes), tuple(sorted(a.resources)),
-                tuple(a.middlewares), a.slash_mode)
+                tuple(a.middlewares), a.slash_mode,
+                tuple((tuple(id(x) for x in r.bound_apps), id(r.render), id(r._execute), tuple(sorted(r.resources)), tuple(r.middlewares), r.slash_mode,
+                       id(r.render_error)) for r in a.routes))
     return (rsnap(w['R0']), rsnap(w['R1']), asnap(w['S']), asnap(w['SB']))
 
 
